@@ -26,6 +26,8 @@ CLAIMS = {
          "partial: U >= heap payload of the decoded value is checked on the implementation (oracle with real size_of) rather than proved."),
  "C14": ("§4 C14", "Theorems: locality of every decoder program; every strict prefix of an encoding fails; a concatenation of encodings decodes value by value in order; decode_all succeeds exactly when decode succeeds with nothing left. Oracle: every cut point (all for encodings <= 40 bytes), decode_all and decode_all_with_depth_limit on every input.",
          "Bit sequences are outside strict_prefix_fails (it rests on the round-trip theorem)."),
+ "C15": ("§4 C15", "Theorems over a branch-by-branch model of append_or_new_impl with abstract items (n items whose encodings concatenate to p, so any item type, alias form, zero-sized items): appending to the encoding of c items yields the canonical count c+n, the old items, the new items, across every prefix-width change (in-place rewrite and reallocation branches proved equal); append to empty; overflow of the combined count is an error, never a wrong count; input without a valid count is rejected; never panics; every history of appends equals the encoding of the concatenation (induction over histories). Correspondence: seeded histories on u8/u32/String/Vec<u8>/()/derived items over Vec and VecDeque, counts within 3 of every prefix boundary and around 2^32 with zero-sized items, garbage prefixes. The check found the truncation defect F3 on the original tree (repaired by a fix: commit).",
+         "ExactSizeIterator::len is taken as the item count."),
  "C19": ("§4 C19", "Theorem for every decoder program and input, success or failure: count = min(u64::MAX, bytes delivered by the wrapped input); equals the encoded length after decoding an encoding; the step function saturates. Oracle: count() vs the wrapped input's position after every decode.",
          ""),
 }
